@@ -16,6 +16,7 @@
   used with that discipline never has two holders of one buffer, in any interleaving);
   `double_put_aliases` shows what the discipline excludes. Also exercised by `sockconc`.
 -/
+import NV.Model.TcpStream
 import NV.Model.Reply
 import NV.Model.CFG
 import NV.Gen.ProxyCFG
@@ -293,3 +294,79 @@ example : ∃ s, run init [.new 1, .hand 1 2 0, .new 2, .put 2 0, .put 2 1, .get
   ⟨_, rfl, rfl, rfl⟩
 
 end NV.C01
+
+/-! ### One TCP connection as a byte stream (proxy/tcp.go serveTCPConn, readTCP) -/
+namespace NV.C01Stream
+open NV NV.TcpStream
+
+theorem frame_len (q : Bytes) (h : q.length ≤ 65535) :
+    (UInt8.ofNat (q.length / 256)).toNat * 256 + (UInt8.ofNat (q.length % 256)).toNat = q.length := by
+  simp [UInt8.toNat_ofNat']
+  omega
+
+/-- one well-sized frame in front of any stream is split off and the rest is treated the same way -/
+theorem splitFrames_frame (q rest : Bytes) (h1 : minQuery < q.length) (h2 : q.length ≤ 65535) :
+    splitFrames (frame q ++ rest) = (q :: (splitFrames rest).1, (splitFrames rest).2) := by
+  have hl := frame_len q h2
+  rw [frame, List.cons_append, List.cons_append, splitFrames]
+  simp only [hl]
+  have : ¬ (q ++ rest).length < q.length := by simp
+  simp only [this, ↓reduceIte]
+  have : ¬ q.length ≤ minQuery := by omega
+  simp [this]
+
+/-- **round trip**: the frames of any list of queries (each longer than 14 bytes, at most 65535) written back to back
+are handed to the handlers one by one, in order, nothing else, and the connection ends cleanly -/
+theorem frames_roundtrip (qs : List Bytes) (h : ∀ q ∈ qs, minQuery < q.length ∧ q.length ≤ 65535) :
+    splitFrames (qs.flatMap frame) = (qs, .eof) := by
+  induction qs with
+  | nil => simp [splitFrames]
+  | cons q qs ih =>
+    have hq := h q (by simp)
+    rw [List.flatMap_cons, splitFrames_frame q _ hq.1 hq.2, ih (fun x hx => h x (by simp [hx]))]
+
+/-- a frame of at most 14 bytes (also the empty frame) ends the connection: nothing after it is handled, whatever follows -/
+theorem small_frame_stops (qs : List Bytes) (small tail : Bytes)
+    (h : ∀ q ∈ qs, minQuery < q.length ∧ q.length ≤ 65535) (hs : small.length ≤ minQuery) :
+    splitFrames (qs.flatMap frame ++ frame small ++ tail) = (qs, .small) := by
+  induction qs with
+  | nil =>
+    have hl := frame_len small (by unfold minQuery at hs; omega)
+    simp only [List.flatMap_nil, List.nil_append]
+    rw [frame, List.cons_append, List.cons_append, splitFrames]
+    simp only [hl]
+    have : ¬ (small ++ tail).length < small.length := by simp
+    simp [this, hs]
+  | cons q qs ih =>
+    have hq := h q (by simp)
+    rw [List.flatMap_cons, List.append_assoc, List.append_assoc, splitFrames_frame q _ hq.1 hq.2]
+    rw [← List.append_assoc, ih (fun x hx => h x (by simp [hx]))]
+
+/-- every frame that reaches a handler is longer than 14 bytes: it has a header, hence an ID to reply with -/
+theorem handled_frames_long (s : Bytes) : ∀ f ∈ (splitFrames s).1, minQuery < f.length := by
+  induction hn : s.length using Nat.strongRecOn generalizing s with
+  | _ n ih =>
+    intro f hf
+    match s, hn with
+    | [], _ => simp [splitFrames] at hf
+    | [_], _ => simp [splitFrames] at hf
+    | hi :: lo :: rest, hn =>
+      rw [splitFrames] at hf
+      simp only at hf
+      split at hf
+      · simp at hf
+      · split at hf
+        · simp at hf
+        · rename_i h1 h2
+          simp only [List.mem_cons] at hf
+          rcases hf with rfl | hf
+          · simp [List.length_take]; omega
+          · exact ih _ (by simp at hn; simp; omega) _ rfl f hf
+
+
+/-- the hypotheses are satisfiable: a 15-byte message, then an EMPTY frame, then another message that is never handled -/
+example : splitFrames ([List.replicate 15 (7 : UInt8)].flatMap frame ++ frame [] ++ frame (List.replicate 15 9)) =
+    ([List.replicate 15 7], .small) :=
+  small_frame_stops [List.replicate 15 7] [] (frame (List.replicate 15 9)) (by simp [minQuery]) (by simp [minQuery])
+
+end NV.C01Stream
